@@ -169,6 +169,26 @@ defprog! {
    }
 }
 
+// a body clause that binds the lattice *value* column as well (`lat(x, v)` with both bound) reads
+// the all-columns index of the lattice
+defprog! {
+   name: lattice_bound_value;
+   timeouts: no;
+   positive: true;
+   tags: ["c13", "lattice"];
+   rels: {
+      relation init(u32, u32) [input];
+      relation q(u32, u32) [input];
+      lattice lat(u32, u32) [];
+      relation r(u32, u32) [];
+   }
+   gens: [("random", gens::random), ("small", gens::small)];
+   rules: {
+      lat(x, *v) <-- init(x, v);
+      r(x, v) <-- q(x, v), lat(x, v);
+   }
+}
+
 pub fn all() -> Vec<ProgramDef> {
-   vec![shortest_path::def(), longest_bounded::def(), const_prop::def(), reach_sets::def(), lat_noindex::def(), write_only_heads::def(), lattice_then_walk::def()]
+   vec![shortest_path::def(), longest_bounded::def(), const_prop::def(), reach_sets::def(), lat_noindex::def(), write_only_heads::def(), lattice_then_walk::def(), lattice_bound_value::def()]
 }
